@@ -98,6 +98,11 @@ func runWorker(ps *propSpec, tier string, seed uint64, from, to, stride int, dig
 		if digests {
 			out.Digests = append(out.Digests, fmt.Sprintf("%d:%016x:%016x", idx, hash64(traceJSON(tr)), res.Digest()))
 		}
+		if len(res.Viol) > 0 {
+			if cz, ok := w.(Concretiser); ok {
+				tr = cz.Concretise(tr, res)
+			}
+		}
 		for _, v := range res.Viol {
 			if v.Prop != ps.ID {
 				continue
@@ -215,11 +220,12 @@ type resultWire struct {
 	Digest     uint64
 	Fatal      string
 	Log        []string
+	Extra      map[string]string
 }
 
 func toWire(r *Result, withLog bool) *resultWire {
 	w := &resultWire{Viol: r.Viol, Evals: r.Evals, OpsRun: r.OpsRun, Faults: r.Faults, Probes: r.Probes,
-		NonTrivial: r.NonTrivial, Shape: r.Shape, Steps: r.Steps, Digest: r.Digest(), Fatal: r.Fatal}
+		NonTrivial: r.NonTrivial, Shape: r.Shape, Steps: r.Steps, Digest: r.Digest(), Fatal: r.Fatal, Extra: r.Extra}
 	if withLog {
 		w.Log = r.Log
 	}
@@ -237,6 +243,7 @@ func fromWire(w *resultWire) *Result {
 		r.Probes = w.Probes
 	}
 	r.Log = []string{fmt.Sprintf("digest:%016x", w.Digest)}
+	r.Extra = w.Extra
 	return r
 }
 
@@ -354,6 +361,22 @@ func minimise(ps *propSpec, tr *Trace, class string, maxExec int) (*Trace, int) 
 				c.Ops[i] = alt
 				if ok, _ := fails(c); ok {
 					cur = c
+					break
+				}
+			}
+		}
+	}
+	// 4. simpler configurations (e.g. fewer context switches)
+	if cs, ok := w.(CfgShrinker); ok {
+		for progress := true; progress && execs < maxExec; {
+			progress = false
+			for _, c := range cs.ShrinkCfg(cur) {
+				if ok, _ := fails(c); ok {
+					cur = c
+					progress = true
+					break
+				}
+				if execs >= maxExec {
 					break
 				}
 			}
@@ -549,7 +572,11 @@ func drive(ps *propSpec, tier string, seed uint64, evidencePath, replayDir, find
 			exit = 1
 			continue
 		}
-		mt, execs := minimise(ps, fv.Trace, c, 600)
+		budgetExecs := ps.MinExecs
+		if budgetExecs == 0 {
+			budgetExecs = 600
+		}
+		mt, execs := minimise(ps, fv.Trace, c, budgetExecs)
 		doc := replayDoc{Property: fv.V.Prop, Oracle: fv.V.Oracle, Signature: fv.V.Sig, Message: fv.V.Msg, VerifSeed: seed,
 			Run: fv.Run, RunSeed: fv.Seed, Minimised: true, OriginalOps: len(fv.Trace.Ops), MinExecs: execs, Violation: fv.V, Trace: mt}
 		// refresh the message/op index from the minimised trace
